@@ -144,6 +144,25 @@ def make_middleware(log, idx):
     return middleware
 
 
+class EqualMiddleware(object):
+    """A middleware object that compares equal to every other instance configured with the same index (value
+    objects such as frozen dataclasses do); each instance logs the request it was configured for."""
+
+    def __init__(self, log, idx, run_id):
+        self.log, self.idx, self.run_id = log, idx, run_id
+        self.__name__ = "equal_middleware_%d" % idx
+
+    def __eq__(self, other):
+        return isinstance(other, EqualMiddleware) and other.idx == self.idx
+
+    def __hash__(self):
+        return hash(("EqualMiddleware", self.idx))
+
+    def __call__(self, next_, root, context, info, /, **kwargs):       # arguments may be called `self`
+        self.log({"ev": "mw", "idx": self.idx, "path": tuple(info.path), "run": self.run_id})
+        return next_(root, context, info, **kwargs)
+
+
 def check_stage_grammar(events, n_instr, crashed=False):
     """Returns a list of (key, detail) problems. Looks at instrumentation 0's view for grammar and
     at all of them for the stacking order."""
